@@ -201,7 +201,57 @@ def check_visit(chk, F, R):
             return
         except Panic as e:
             chk.fail(R, t, "panic: %s" % e, where="src/descriptor")
-    chk.floor(R, "descriptors", n, 60)
+    # taproot trees whose leaves carry zero, one or several keys (a keyless leaf such as `older(n)` only exists in trees
+    # built with Tr::new / the insane parser): model trees, the leaves' own iterators stubbed with their key lists
+    from . import c15
+    from ..interp import PyIter, some, NONE
+    m2 = H.m
+    leafkeys = {}
+    for q in F.fns:
+        if q.endswith("::iter_pk") and "Miniscript" in q:
+            m2.hooks[q] = lambda m_, a, c: PyIter(list(leafkeys[B.deref(a[0]).fields["leafname"]]))
+        if q.endswith("::for_each_key") and "Miniscript" in q:
+            def fek_leaf(m_, a, c):
+                for k in leafkeys[B.deref(a[0]).fields["leafname"]]:
+                    r_ = m_.call_value(a[1], [k])
+                    if not r_:
+                        return False
+                return True
+            m2.hooks[q] = fek_leaf
+    for text, lk in (("{A,B}", {"A": [], "B": ["X"]}), ("{A,B}", {"A": ["X"], "B": []}), ("{A,{B,C}}", {"A": [], "B": [], "C": ["X", "Y"]}),
+                     ("{{A,B},C}", {"A": ["X"], "B": [], "C": ["Y"]}), ("{A,{B,C}}", {"A": [], "B": [], "C": []}),
+                     ("A", {"A": []}), ("{A,{B,{C,D}}}", {"A": ["X"], "B": [], "C": [], "D": ["Y", "Z"]})):
+        leafkeys.clear()
+        leafkeys.update(lk)
+        key = "model-tr|%s|%s" % (text, ",".join("%s:%s" % (k, "+".join(v) or "-") for k, v in sorted(lk.items())))
+        want = sorted(["K"] + [k for v in lk.values() for k in v])
+        n += 1
+        try:
+            d = Adt(c10.DESC, "Tr", {"0": Adt(c15.TR, "Tr", {"internal_key": "K", "tree": some(c15.mk_tree(text)), "spend_info": Term("cache")})})
+            bad = []
+            seen = []
+
+            def pred3(k):
+                seen.append(B.deref(k))
+                return True
+            r = m2.call_callee({"def": fek, "resolved": fek, "name": "for_each_key", "targs": [c10.STRING, "F"]}, [d, pred3])
+            if r is not True or sorted(seen) != want:
+                bad.append("for_each_key visits %s, the descriptor has %s" % (sorted(seen), want))
+            it = m2.call_callee({"def": ipk, "resolved": ipk, "name": "iter_pk", "targs": [c10.STRING]}, [d])
+            got = []
+            for _ in range(len(want) + 3):
+                x = m2.call_path(nxt, [it])
+                if x.variant == "None":
+                    break
+                got.append(B.deref(x.fields["0"]))
+            if sorted(got) != want:
+                bad.append("iter_pk yields %s, the descriptor has %s" % (got, want))
+            chk.obligation(R, not bad, key, "; ".join(bad)[:600], where="src/descriptor/iter.rs")
+        except Unsupported as e:
+            chk.fail(R, "unanalysable:" + key, "unanalysable: %s" % e, where=getattr(e, "where", ""), kind="unanalysable")
+        except Panic as e:
+            chk.fail(R, key, "panic: %s" % e, where="src/descriptor/iter.rs")
+    chk.floor(R, "descriptors", n, 65)
 
 
 # ---- translation of whole descriptors (C20) ----------------------------------------------------------------------------
